@@ -200,6 +200,27 @@ class PoolWorld:
         return self.qs.query(self.X, y, **kw)
 
 
+def collaborator_sane(w, y):
+    """Does the caller's scikit-learn based classifier, cloned and fitted on its own on (X, y), predict valid
+    probabilities on the pool?  (Models the library implements itself are always held to their contract.)"""
+    from sklearn.base import clone
+
+    from skactiveml.classifier import SklearnClassifier
+
+    models = w.model if isinstance(w.model, list) else [w.model]
+    for m in models:
+        if not isinstance(m, SklearnClassifier):
+            continue
+        try:
+            c = clone(m).fit(w.X, y)
+            P = np.asarray(c.predict_proba(w.X), dtype=float)
+        except Exception:
+            return False
+        if not np.isfinite(P).all() or (np.abs(P.sum(axis=1) - 1.0) > 1e-6).any() or (P < 0).any():
+            return False
+    return True
+
+
 # --------------------------------------------------------------------------
 # scenario generation shared by C14 / C05 / C06
 # --------------------------------------------------------------------------
@@ -423,6 +444,12 @@ class C14Check(PoolCheckBase):
                 ctx.violate("query-does-not-terminate", subj, f"cycle {cycles}: query used more than {FUEL} line events ({u} unlabeled, batch {bs})", cond)
                 break
             except Exception as ex:
+                if not collaborator_sane(w, y):
+                    # the caller's scikit-learn model, fitted on its own on these labels, returns probabilities that are
+                    # not probabilities (e.g. GaussianNB on coinciding points of different classes: rows of ones);
+                    # what a strategy does with them is not the loop's business
+                    ctx.probe("collaborator_invalid_proba")
+                    return ctx.result(sig=self._sig(sc, ctx), extra={"aborted": True, "notes": [f"collaborator returns invalid probabilities; query raised {type(ex).__name__}"]})
                 ctx.violate("query-raises", subj, f"cycle {cycles} ({u} unlabeled, batch {bs}): {type(ex).__name__}: {str(ex)[:160]}", dict(cond, exc=type(ex).__name__))
                 break
             utils = None
